@@ -461,7 +461,11 @@ func ConnectUpstream(ctx context.Context, node *TNode, id, endpoint, kind string
 	pu, _ := url.Parse(target)
 	cu := &client.Upstream{URL: pu, Token: o.Token, TenantID: o.TenantID, MinReconnectBackoff: 10 * time.Millisecond, MaxReconnectBackoff: 200 * time.Millisecond}
 	u.ConnectStart = time.Now()
-	ln, err := cu.Listen(ctx, endpoint)
+	// as the piko agent does, the context given to Listen only bounds the initial
+	// connect and is released afterwards: the listener must not depend on it later
+	lctx, lcancel := context.WithTimeout(ctx, 3*Deadline())
+	ln, err := cu.Listen(lctx, endpoint)
+	lcancel()
 	if err != nil {
 		return nil, err
 	}
@@ -535,6 +539,22 @@ func (u *Up) IsHTTP() bool { return strings.HasSuffix(u.Kind, "http") }
 func (u *Up) Disconnect() {
 	u.gone.Store(true)
 	_ = u.ln.Shutdown()
+	// A listener that was in the middle of reconnecting may install a new session
+	// after Shutdown looked at the old one (the client library does not
+	// synchronise the two), and would then stay connected for good - and keep
+	// http.Server.Close below waiting for its Accept: shut down again, in the
+	// background, until serving has ended.
+	go func() {
+		end := time.Now().Add(5 * time.Minute)
+		for time.Now().Before(end) {
+			select {
+			case <-u.serveDone:
+				return
+			case <-time.After(100 * time.Millisecond):
+				_ = u.ln.Shutdown()
+			}
+		}
+	}()
 	if u.httpSrv != nil {
 		_ = u.httpSrv.Close()
 	}
@@ -552,26 +572,11 @@ func (u *Up) Disconnect() {
 	if u.localTCP != nil {
 		_ = u.localTCP.Close()
 	}
-	// A listener that was in the middle of reconnecting may install a new session
-	// after Shutdown looked at the old one (the client library does not
-	// synchronise the two), and would then stay connected for good: shut down
-	// again until serving has ended. The first second is waited for here so that
-	// DisconnectEnd bounds the time the upstream can have served; the rest runs in
-	// the background.
-	again := func(d time.Duration) bool {
-		end := time.Now().Add(d)
-		for time.Now().Before(end) {
-			select {
-			case <-u.serveDone:
-				return true
-			case <-time.After(100 * time.Millisecond):
-				_ = u.ln.Shutdown()
-			}
-		}
-		return false
-	}
-	if !again(time.Second) {
-		go again(5 * time.Minute)
+	// DisconnectEnd bounds the time the upstream can have served: wait (briefly)
+	// until serving has ended
+	select {
+	case <-u.serveDone:
+	case <-time.After(2 * time.Second):
 	}
 	u.DisconnectEnd = time.Now()
 }
